@@ -46,7 +46,7 @@ INITIALLY_MISSED = {  # seeded changes the checks did not catch when first run a
     "C17-r4-3": "a fresh hedger per history; a long-lived state-dependent hedger (its previous outputs in another dtype) is now reused across casts",
     "C20-r4-2": "cost rate fixed before the modules were built; `late_cost` (cost set on the instrument after constructing hedger / WhalleyWilmott) added",
     "C03-r4-2": "underlier always simulated through the derivative (horizon = maturity); second round now simulates the underlier over a longer horizon",
-    "C07-r4-1": "bound modules called with no/one/all arguments on integral maturity/dt only; caught after partial-argument + non-integral grids were combined (batch_independence round)",
+    "C07-r4-1": "bound modules used maturities that are integral multiples of dt only (caught or not depending on the shard split: a one-ulp effect); maturities between two grid points added",
     "C13-r4-2": "hedge-grid check used one hedging instrument; H=2 with a column-distinguishing model added (entry [n,h,t] vs features at t)",
     "C13-r4-3": "maturity 0 (single time point) was mapped to dt by the generator; now generated as such",
     "C14-r4-2": "no model with a clamp whose bound depends on a parameter; `capped` model (Clamp/LeakyClamp, number floor + learned tensor cap, kink-aware) added",
